@@ -82,6 +82,13 @@ def cases(ctx, zone: str):
                         steps.append(["rx", f"{sender};255;3;{ack};{t};{payload}\n"])
                         steps += [["rx", probe + "\n"] for probe in probes]
                         yield {"tz": zone, "version": version, "steps": steps}
+    # value requests of every type on children of every type with NOTHING stored (nothing may be written), then with values
+    if zone == ZONES[0] or zone == "UTC":
+        for version in [None, *VERSIONS]:
+            for start in range(0, 40, 8):
+                if ctx.mine():
+                    yield {"tz": zone, "version": version,
+                           "steps": histories.type_table_sweep(list(range(start, start + 8)), list(range(0, 57)))}
     # id requests on registries whose highest id is near the top of the range (an id is still free / none is)
     for version, highest, request in itertools.product([None, *VERSIONS], (1, 100, 252, 253, 254, 255),
                                                        ("255;255;3;0;3;", "255;7;3;0;3;", "9;255;3;1;3;x")):
